@@ -1,15 +1,15 @@
 SPEC = {
     'module': 'EV.Props.C02',
     'theorems': ['EV.Index.C02_spec_ordered', 'EV.Index.C02_advance', 'EV.Index.C02_flush', 'EV.Index.C02_backup',
-                 'EV.Index.C02_history', 'EV.Index.C02_init'],
+                 'EV.Index.C02_history', 'EV.Index.C02_init',
+                 'EV.Index.C01run_refinement', 'EV.Index.C01run_observables', 'EV.Index.C01run_resolve', 'EV.Index.C01run_file_readers'],
     'suites': ['index'],
     'design_ref': 'DESIGN.md §6 C02',
     'assumptions': [
         'valid chain; flush ids < 2^16 (pack_be_uint16 raises at 65536; compaction keeps them small)',
         'the per-tx script-hash lists handed to add_unflushed are the specification\'s touched lists (C01_block)',
-        'tx numbers map back to (tx hash, height) through the tx_counts array and the hashes file: that file layer is validated by suite index (fs_tx_hash / tx hashes at height compared with the specification), not proved',
     ],
-    'level_text': 'proof (partial): the invariant "rows of a script hash in flush-id order ++ unflushed tail = specification history (complete, ascending, duplicate-free)" is proved to hold initially and to be preserved by add_unflushed for every block, by every History.flush (history-only or full, any number: a history split over arbitrarily many rows), and by History.backup; get_txnums with any limit is proved to return exactly the specification history or its first limit entries.  The tx-number -> (hash, height) resolution is validated by correspondence only.',
+    'level_text': 'proof: the invariant "rows of a script hash in flush-id order ++ unflushed tail = specification history (complete, ascending, duplicate-free)" is proved to hold initially and to be preserved by add_unflushed for every block, by every History.flush (history-only or full, any number: a history split over arbitrarily many rows), and by History.backup; get_txnums with any limit is proved to return exactly the specification history or its first limit entries.  The tx-number -> (hash, height) resolution through the tx_counts array and the hashes file is proved for every run of advances and flushes (C01run_resolve, C01run_file_readers), and limited_history = specification history is part of the whole-run theorem C01run_observables.',
     'level_note': 'trusted: Lean kernel + 3 axioms; model/code tie by suite index on a real LevelDB; LevelDB key order = (hashX, big-endian flush id) order',
     'technique': 'Lean 4 inductive invariant over flush/advance/backup + differential correspondence',
 }
